@@ -4,18 +4,15 @@ import json, os
 V = os.path.dirname(os.path.dirname(os.path.abspath(__file__)))
 ALL = ["C%02d" % i for i in range(1, 21)]
 MC = "model_checking"
-CHECKS = {
- "C01": dict(cat=MC, ref="4.1", tech="TLA+ monitor PmmProps: TLC exhaustive on the transcribed allocator model + TLC trace validation of real pmm executions (TLC-enumerated small maps and random real-scale maps)",
-   text="The statement is an invariant of PmmProps (frame usable, not kernel, not early-boot, not held). TLC checks it on the transcribed design for every map of the small scope, then every TLC-enumerated map/kernel placement and alloc/free script is replayed on the real package and, with seeded random real-scale histories, every recorded event is judged by the same TLA+ operators.",
-   note="Exhaustive only inside the TLC scope (<=2 regions over 4-7 frames in quarter-page units, 4-bit bitmap words, <=6 ops); real-scale maps are sampled. Trusted: multiboot encoder + event logger in harness/pmm, seams reserveRegionFn/mapFn. Kernel/early frames are never freed by the drivers."),
- "C02": dict(cat=MC, ref="4.1", tech="TLA+ monitor PmmProps (boot allocator events) checked by TLC on the transcribed BootMemAllocator for every small map and on traces of the real allocator drained, reset and replayed",
-   text="Ascending, usable, non-kernel frames and replay determinism are checked by TLC for every map/kernel placement of the small scope on the transcription and, through trace validation, on the real BootMemAllocator for the same maps (scaled) and for random real-scale maps, drained to exhaustion, reset and replayed.",
-   note="An early out-of-memory (frames remain but are skipped) is not flagged: the statement only forbids returning a wrong frame. Same scope/trust as C01."),
- "C03": dict(cat=MC, ref="4.1", tech="TLA+ monitor PmmProps (accounting, OOM-iff-exhausted, free contract, no panic) via TLC model checking + trace validation of real pmm executions",
-   text="Init outcome, OOM exactly at exhaustion, totals after every step and the error contract of FreeFrame are monitor checks evaluated by TLC on every event of the design model and of real executions (word-boundary pool sizes 63/64/65/128/129..., sub-page regions, unaligned bounds).",
-   note="Same scope/trust as C01. The pinned tree violated this (bitmap one bit short, frameless regions); repaired by a fix: commit, see known_findings.json."),
-}
-NA = {}
+# one JSON fragment per claimed property: tools/manifest/<ID>.json with keys
+#   cat (level category), ref (DESIGN.md section), tech (technique), text (level_claimed.text), note (level_note)
+# a property without a fragment is listed under not_applicable (reason from tools/manifest/NA.json if present)
+CHECKS = {}
+for pid in ALL:
+    p = os.path.join(V, "tools", "manifest", pid + ".json")
+    if os.path.exists(p):
+        CHECKS[pid] = json.load(open(p))
+NA = json.load(open(os.path.join(V, "tools", "manifest", "NA.json"))) if os.path.exists(os.path.join(V, "tools", "manifest", "NA.json")) else {}
 def main():
     checks = []
     for pid in ALL:
